@@ -482,7 +482,7 @@ def _mcca():
         raise TranslationError("CCA._D: expected one da.diag(...) for the PCA blocks")
     out += [f"/-- {header(path, 'CCA._D', src, fnD)}: diagonal entry of a block under the PCA option -/",
             "def mccaRidgePca {R : Type} [Num R] (c expvar : R) : R :=",
-            "  " + lean_num(diags[0].args[0], {"self.c[i]": "c", "expvar.data": "expvar"})]
+            "  " + lean_num(diags[0].args[0], {"self.c_[i]": "c", "expvar.data": "expvar"})]
     symD = Sym(fnD)
     ev = ast.unparse(symD.defs.get("expvar", ast.Name("?")))
     if ev != "pc.explained_variance().isel(mode=slice(0, n_features))":
@@ -497,7 +497,7 @@ def _mcca():
                  "return D / len(views)"]
     if seq[-6:] != want_tail:
         raise TranslationError("CCA._D: tail is not block-diag, minus (smallest eigenvalue - eps) * I, over len(views): " + " | ".join(seq[-6:]))
-    blocks_else = "blocks = [self._apply_E(view, c) for view, c in zip(views, self.c)]"
+    blocks_else = "blocks = [self._apply_E(view, c) for view, c in zip(views, self.c_)]"
     if blocks_else not in ast.unparse(fnD):
         raise TranslationError("CCA._D: blocks without PCA are not _apply_E(view, c) per view")
     fnS, rS = ret_of("CCA._smallest_eigval")
